@@ -3,11 +3,11 @@
 # Confirms a seeded change in a scratch worktree of /repo (HEAD): demo passes clean, fails with the
 # change, and the repository's test-suite passes with the change.  Prints one JSON line.
 P=$1; V=$2
-SRC=/verif/seeded/_unverified/$P/$V
+SRC=/verif/seeded/$P-$V
 WT=/tmp/sw_${P}_$V
 rm -rf $WT; git -C /repo worktree prune
 git -C /repo worktree add --detach $WT HEAD >/dev/null 2>&1 || { echo "{\"id\":\"$P/$V\",\"error\":\"worktree\"}"; exit 1; }
-PATCH=$SRC/patch.diff; [ -f $SRC/patch.rebased.diff ] && PATCH=$SRC/patch.rebased.diff
+PATCH=$SRC/patch.diff
 cd $WT
 PYTHONPATH=$WT timeout 300 /venv/bin/python $SRC/demo.py > $WT/.demo_clean.out 2>&1; RC_CLEAN=$?
 APPLY=ok; git apply $PATCH 2>/dev/null || APPLY=fail
